@@ -111,6 +111,7 @@ def run(H, tier, rng):
     H.exhaustive = False
 
 
-Harness("C13", "integer-grid curves (equal heights, flat/vertical neighbours, rising and falling) and seeded random grids x all ascending knee "
-        "subsets (<=5 knees for n<=7, samples otherwise) x t in {0,0.2,0.33,0.5,1} plus thresholds equal to an occurring IoU; oracle: the "
-        "statement's rules in exact rational arithmetic", "n <= 12").main(run, replay)
+if __name__ == "__main__":
+    Harness("C13", "integer-grid curves (equal heights, flat/vertical neighbours, rising and falling) and seeded random grids x all ascending knee "
+            "subsets (<=5 knees for n<=7, samples otherwise) x t in {0,0.2,0.33,0.5,1} plus thresholds equal to an occurring IoU; oracle: the "
+            "statement's rules in exact rational arithmetic", "n <= 12").main(run, replay)
